@@ -240,9 +240,11 @@ def to_trace(tid: int, run: dict):
 
 # --------------------------------------------------------------------------- canonical signatures
 def cell_pattern(cells):
-    """(h, i, w) cells -> 'h=F1 i=F1 w=X1' with content ids renamed in order of first appearance."""
+    """(h, i, w) cells -> 'i=F1 w=X1 h=F1': index, directory, HEAD, with content ids renamed in
+    that order of first appearance (so 'i=F1 w=X1' always means: same bytes, other kind)."""
+    h, i, w = cells
     ren, out = {}, []
-    for name, cell in zip(("h", "i", "w"), cells):
+    for name, cell in (("i", i), ("w", w), ("h", h)):
         if not cell or cell[0] == "-":
             out.append(f"{name}=-")
             continue
@@ -275,17 +277,19 @@ def diff_signature(clause: str, field: str, sign: str, p, h: dict, i: dict, w: d
 
 
 def transition_classes(t1: dict, t2: dict):
-    """type-changing transitions between two trees, per top-level name: 'D>F', 'F>D', 'L>F', ..."""
-    def cls(t, name):
+    """what changes type between two trees, at every level: 'D>F' (a directory becomes a file),
+    'F>D', 'L>F', '->D', ... (F = regular file of either mode, L = link, D = directory, - = absent)"""
+    def nodes(t):
+        out = {}
         for p, (k, _c) in t.items():
-            if p[0] == name:
-                if len(p) > 1:
-                    return "D"
-                return "L" if k == "L" else "F"
-        return "-"
+            out[p] = "L" if k == "L" else "F"
+            for n in range(1, len(p)):
+                out[p[:n]] = "D"
+        return out
+    n1, n2 = nodes(t1), nodes(t2)
     out = set()
-    for name in {p[0] for p in t1} | {p[0] for p in t2}:
-        a, b = cls(t1, name), cls(t2, name)
+    for p in set(n1) | set(n2):
+        a, b = n1.get(p, "-"), n2.get(p, "-")
         if a != b:
             out.add(f"{a}>{b}")
     return ",".join(sorted(out)) or "none"
